@@ -86,3 +86,28 @@ PROPS["C15"] = P("exploration",
     L4_REAL, L4_STUB, budget=(45, 900))
 MAN["C15"] = {"text": "Seeded exploration of datasets, write paths and expression trees on simulated 1-4 node clusters; results compared with a set-algebra model.",
               "note": "Expression trees are bounded (depth 3, arity 3); ClearRow/Store only with ReplicaN=1 (DESIGN appendix A). The model uses plain integer comparison and timestamp-in-range semantics."}
+
+_DB_COMMON = " Operations mix writes through every path (Set/Clear PQL, Import, ImportValue, ImportRoaring) with the property's queries, issued to any node; every answer is compared with a plain model of the logical database."
+PROPS["C14"] = P("exploration", "Each evaluation is one seeded plan on a 1-3 node cluster: int fields with bounds from a biased set (0-based, negative-only, straddling 0, min=max, +-2^62), values written by Set and ImportValue (overwrites, clears) across shards with deliberate ties; for small ranges one column per representable value; predicates for ==, !=, <, <=, >, >=, between and not-null inside, at and beyond the bit-depth range and the declared bounds; Sum/Min/Max with and without filter; single-node runs restart in between." + _DB_COMMON, L4_REAL, L4_STUB, budget=(45, 900))
+PROPS["C16"] = P("exploration", "Each evaluation is one seeded plan on a 1-3 node cluster with set/mutex/bool/time fields over rows {0,1,2,3,7,100,101}: Rows with previous, limit, column and time range; Rows paging loops run to exhaustion; GroupBy over one or two fields with filter, limit and offset, and limit/offset paging loops concatenated; MinRow/MaxRow with and without filter, including after the maximum row was cleared." + _DB_COMMON, L4_REAL, L4_STUB, budget=(45, 900))
+PROPS["C17"] = P("exploration", "Each evaluation is one seeded plan on a 2-5 node cluster, ReplicaN 1-3, executor pool 1/2/8/16, under a PCT or random schedule that permutes the completion order of per-node mapper goroutines and local shard workers: the same read query (Row trees, Count, Sum/Min/Max with values tied across shards, MinRow/MaxRow, Rows, GroupBy, TopN(ids)) is issued with every node as coordinator; all answers must equal each other and the model." + _DB_COMMON, L4_REAL, L4_STUB, budget=(45, 900))
+PROPS["C18"] = P("exploration", "Each evaluation is one seeded plan with time fields of all 10 quanta (with and without standard view): timestamped sets spread over a 3-year window including month ends, year ends and the leap day; Row and Rows queries over ranges aligned to the quantum's finest unit (short, 40-unit and multi-year), open-ended ranges (to = simulated clock + 1 day), clock jumps and restarts in between; a column is expected iff one of its timestamps lies in the range." + _DB_COMMON, L4_REAL, L4_STUB, budget=(45, 900))
+PROPS["C19"] = P("exploration", "Each evaluation is one seeded plan on a 1-3 node cluster (ReplicaN 1-2) with one time field of a random quantum: several timestamped sets of one (row, column) plus sets of other rows/columns creating sibling views, optional restart, then Clear, then range queries over random aligned sub-ranges, the whole window and the standard view: the column must be absent from every answer." + _DB_COMMON, L4_REAL, L4_STUB, budget=(45, 900))
+PROPS["C08"] = P("exploration", "Each evaluation is one seeded plan on one node: schema with set/int/time/mutex/bool fields and random options (cache type/size, int bounds excluding zero, all time quanta, noStandardView, existence tracking), data written through every path, and several clean restarts (Server.Close + reopen of the same directory); a battery of queries over every field (rows, values, ranges, Sum/Min/Max, time ranges, Rows, MinRow/MaxRow, TopN(ids), Not) runs before and after each restart and must equal the model both times." + _DB_COMMON, L4_REAL, L4_STUB, budget=(45, 900))
+MAN["C14"] = {"text": "Seeded exploration of integer fields (bounds, values, predicates, aggregates) on simulated clusters with restarts; compared with a column->value map.", "note": "Sampling, not the per-bit-depth exhaustive enumeration the quantifier names; the Go-API path (Field.Range/Sum/Min/Max) is exercised only through the executor."}
+MAN["C16"] = {"text": "Seeded exploration of Rows/GroupBy/MinRow/MaxRow with paging loops on simulated clusters; compared with the model, pages concatenated and compared with the unpaged result.", "note": "GroupBy over at most two fields; previous= paging of GroupBy not generated."}
+MAN["C17"] = {"text": "Seeded search over completion orders (schedules), coordinators and cluster shapes for every reducer kind; all answers compared with each other and the model.", "note": "Orders are sampled by PCT/random scheduling of mapper goroutines, not enumerated; the algebraic-law clause of the quantifier is covered only through these executions."}
+MAN["C18"] = {"text": "Seeded exploration of time-range queries over all quanta with simulated clock control; compared with timestamp-in-range semantics.", "note": "Sampling of a 3-year window, not the exhaustive enumeration named by the quantifier; view-name-to-interval mapping is checked only through query answers."}
+MAN["C19"] = {"text": "Seeded exploration of set/clear histories on time fields; after Clear the column must be absent from every sampled range.", "note": "Ranges are sampled; forwarded clears on replicas included."}
+MAN["C08"] = {"text": "Seeded exploration of schema/data histories with clean restarts at arbitrary points; a query battery compared with the model before and after.", "note": "Keys and attributes are covered by C24/C25; unkeyed indexes here."}
+
+# argument-list shrinking: op name -> (fixed prefix length, group size)
+_L2_ARGS = {"import": (1, 2), "iroaring": (2, 2), "importval": (1, 2), "setrow": (1, 1)}
+_L1_ARGS = {"addn": (0, 2), "removen": (0, 2), "import": (2, 2), "decode": (1, 2), "derive": (1, 2)}
+_DB_ARGS = {"import": (2, 3), "importval": (2, 2), "iroaring": (3, 2)}
+for _p in ("C07", "C09", "C10", "C12", "C13", "C29"):
+    PROPS[_p]["shrink_args"] = _L2_ARGS
+for _p in ("C02", "C03", "C04", "C05"):
+    PROPS[_p]["shrink_args"] = _L1_ARGS
+for _p in ("C08", "C14", "C15", "C16", "C17", "C18", "C19"):
+    PROPS[_p]["shrink_args"] = _DB_ARGS
